@@ -272,6 +272,68 @@ fn partitions_for(n: usize, rng: &mut Rng, all_single: bool) -> Vec<(Vec<usize>,
     v
 }
 
+
+// ---------------------------------------------------------------------------------------------
+// large elements: the target of a buffering filter is hundreds of KB to a few MB long (the answer is known by
+// construction, so no DP oracle is needed)
+
+#[derive(Clone, Debug, Serialize, Deserialize)]
+pub struct LargeCase {
+    pub items: usize,
+    /// 0 replace (no selector) | 1 replace (matching selector) | 2 append_child (selector matches nothing: buffered)
+    /// | 3 prepend_child (selector matches nothing: buffered) | 4 append_child (no selector: streamed)
+    pub variant: u8,
+    /// 0 = one chunk, otherwise the chunk size
+    pub stride: usize,
+}
+
+fn large_parts(items: usize) -> (String, String, String, String, String) {
+    let before = "<html><head><title>big</title></head><body><div id=\"pre\">p</div>".to_string();
+    let open = "<ul class=\"big\">".to_string();
+    let mut content = String::with_capacity(items * 64);
+    for i in 0..items {
+        content.push_str(&format!("<li class=\"item\" data-n=\"{i}\">item number {i} of the big list</li>\n"));
+    }
+    let close = "</ul>".to_string();
+    let after = "<p>tail</p></body></html>".to_string();
+    (before, open, content, close, after)
+}
+
+pub fn check_large(case: &LargeCase) -> Result<usize, String> {
+    let (before, open, content, close, after) = large_parts(case.items);
+    let body = format!("{before}{open}{content}{close}{after}");
+    let v = sentinel(1, true);
+    let path = ["html", "body", "ul"];
+    let (filter, expected) = match case.variant {
+        0 => (html_filter("replace", &path, None, &v), format!("{before}{v}{after}")),
+        1 => (html_filter("replace", &path, Some("li"), &v), format!("{before}{v}{after}")),
+        2 => (html_filter("append_child", &path, Some("span.nomatch"), &v), format!("{before}{open}{content}{v}{close}{after}")),
+        3 => (html_filter("prepend_child", &path, Some("span.nomatch"), &v), format!("{before}{open}{v}{content}{close}{after}")),
+        _ => (html_filter("append_child", &path, None, &v), format!("{before}{open}{content}{v}{close}{after}")),
+    };
+    let fc = FilterCase {
+        filters: vec![filter],
+        headers: vec![("Content-Type".to_string(), "text/html".to_string())],
+    };
+    let bytes = body.as_bytes();
+    let cuts = if case.stride == 0 { Vec::new() } else { stride_cuts(bytes.len(), case.stride) };
+    let run = run_chunks(&fc, &split_at(bytes, &cuts));
+    if run.out != expected.as_bytes() {
+        let common = run.out.iter().zip(expected.as_bytes().iter()).take_while(|(a, b)| a == b).count();
+        return Err(format!(
+            "target element of {} bytes, variant {}, chunk size {}: output ({} bytes) differs from the input with the one edit applied ({} bytes) at byte {common}: ...'{}' vs ...'{}'",
+            open.len() + content.len() + close.len(),
+            case.variant,
+            case.stride,
+            run.out.len(),
+            expected.len(),
+            show(&run.out[common.saturating_sub(30)..(common + 50).min(run.out.len())]),
+            show(&expected.as_bytes()[common.saturating_sub(30)..(common + 50).min(expected.len())])
+        ));
+    }
+    Ok(open.len() + content.len() + close.len())
+}
+
 pub fn run(ctx: &Ctx, _args: &Args) -> i32 {
     let started = Instant::now();
     let jobs = ctx.jobs;
@@ -361,6 +423,30 @@ pub fn run(ctx: &Ctx, _args: &Args) -> i32 {
                 }
             }
         }
+        // (4) large target elements (0.3 - 2.5 MB), answer known by construction
+        {
+            let rounds = ctx.tier.pick(1usize, 6usize);
+            for r in 0..rounds {
+                let items = *rng.pick(&[4_000usize, 14_000, 20_000, 33_000]);
+                let case = LargeCase {
+                    items,
+                    variant: ((shard + r) % 5) as u8,
+                    stride: *rng.pick(&[0usize, 16_384, 65_536, 1_000_003]),
+                };
+                report.eval();
+                match guarded(|| check_large(&case)) {
+                    Err(panic) => report.library_panic(&panic),
+                    Ok(Ok(len)) => {
+                        report.count("large_element_runs");
+                        if len > (1 << 20) {
+                            report.count("large_element_runs_over_1_MiB");
+                        }
+                        report.nontrivial(mix(fnv(format!("{case:?}").as_bytes()), 0x1a46e));
+                    }
+                    Ok(Err(m)) => report.violation("large-element", m, json!({"large": case})),
+                }
+            }
+        }
         // (3) random: mutated documents (invalid UTF-8 allowed) and arbitrary bytes x random lists
         for _ in 0..(random_bodies / jobs as u64) {
             let body: Vec<u8> = match rng.below(8) {
@@ -413,6 +499,20 @@ pub fn run(ctx: &Ctx, _args: &Args) -> i32 {
 }
 
 pub fn replay(_ctx: &Ctx, case: &Value) -> i32 {
+    if let Some(l) = case.get("large") {
+        let failures = match serde_json::from_value::<LargeCase>(l.clone()) {
+            Err(e) => {
+                eprintln!("bad case: {e}");
+                return 2;
+            }
+            Ok(lc) => match guarded(|| check_large(&lc)) {
+                Err(p) => vec![format!("panic: {p}")],
+                Ok(Err(m)) => vec![format!("[large-element] {m}")],
+                Ok(Ok(_)) => vec![],
+            },
+        };
+        return super::replay_verdict("C04", failures);
+    }
     let case: Case = match serde_json::from_value(case.clone()) {
         Ok(c) => c,
         Err(e) => {
